@@ -39,8 +39,10 @@ COQ_FILES = [
 ]
 THEOREMS = ["c19_order_independent", "c19_order_independent_any_table", "c19_table_side_condition", "c19_resolve_total",
             "c19_implied_on", "c19_exclusive_never_both", "c19_explicit_both_is_error", "c19_levels_cumulative",
-            "c19_overrides_beat_level", "c19_overrides_beat_level_opt", "c19_unknown_flag_is_error_partial",
-            "c19_unknown_option_is_error_partial", "c19_missing_value_is_error_partial"]
+            "c19_overrides_beat_level", "c19_overrides_beat_level_opt", "c19_never_crashes", "c19_unknown_flag_is_error",
+            "c19_unknown_long_flag_is_error", "c19_malformed_flag_value_is_error", "c19_malformed_level_is_error",
+            "c19_unknown_dump_is_error", "c19_unknown_option_is_error", "c19_unknown_long_option_is_error",
+            "c19_missing_value_is_error"]
 
 
 # ---------------------------------------------------------------------------
@@ -190,7 +192,8 @@ class Impl:
             return 1000000 + self.id_of_name[m.group(1)] * 1000 + self.id_of_name[m.group(2)]
         for code, pre in ((1, "Unknown flag "), (2, "Unknown option "), (3, "Invalid argument "), (4, "Missing value for argument "),
                           (5, "Program filename specified multiple times"), (6, "No input file provided!"),
-                          (7, "Program output should not contain an extension"), (8, "Invalid value for option ")):
+                          (7, "Program output should not contain an extension"), (8, "Invalid value for option "),
+                          (9, "Invalid optimization level "), (10, "Invalid value for flag "), (11, "Unknown dump target ")):
             if msg.startswith(pre):
                 return code
         return 99
@@ -247,7 +250,7 @@ def flag_arg(impl, fid, val, style=0):
         return ["--flag", n + ("=on" if val else "=off")]
     if style == 3:
         return ["--flag", n] if val else ["-fno-" + impl.name_of[fid]]           # upper-case / underscore spelling
-    return ["-f" + impl.name_of[fid].lower()] if val else ["--flag", impl.name_of[fid] + "="]
+    return ["-f" + impl.name_of[fid].lower()] if val else ["--flag", impl.name_of[fid] + "=off"]
 
 
 def cmdline(impl, level, ovs, style=0, input_first=False):
@@ -438,6 +441,7 @@ Definition enc_err (e : errkind) : Z :=
   | EConflict a b => 1000000 + Z.of_N a * 1000 + Z.of_N b
   | EUnknownFlag => 1 | EUnknownOption => 2 | EInvalidArgument => 3 | EMissingValue => 4
   | EMultipleFilenames => 5 | ENoInput => 6 | EOutputExtension => 7 | EInvalidOptionValue => 8
+  | EInvalidLevel => 9 | EInvalidFlagValue => 10 | EUnknownDump => 11
   end%Z.
 Definition enc_opt (o : optval) : list Z :=
   match o with OInt z => [0; z]%Z | OStr s => (1 :: Z.of_nat (List.length s) :: map Z.of_N s)%Z end.
@@ -495,7 +499,7 @@ def describe_digest(impl, dg):
         c = dg[1]
         if c >= 1000000:
             return "RuntimeError: Conflict between %s and %s" % (impl.name_of.get((c - 1000000) // 1000), impl.name_of.get((c - 1000000) % 1000))
-        return "RuntimeError kind %d (1 unknown flag, 2 unknown option, 3 invalid argument, 4 missing value, 5 two filenames, 6 no input, 7 output extension, 8 invalid option value)" % c
+        return "RuntimeError kind %d (1 unknown flag, 2 unknown option, 3 invalid argument, 4 missing value, 5 two filenames, 6 no input, 7 output extension, 8 invalid option value, 9 invalid -O level, 10 invalid --flag value, 11 unknown dump target)" % c
     if dg[0] == 2:
         return "internal crash: %s" % {1: "KeyError", 2: "ValueError"}.get(dg[1], "?")
     return {3: "out of fuel", 4: "exit(0)"}.get(dg[0], "?")
@@ -608,20 +612,24 @@ def kernel_spot_check(ctx, impl, mres, prefixes, all_rest, n=24):
 # case generation for the command-line correspondence
 # ---------------------------------------------------------------------------
 MALFORMED_POOL = [
-    # (arguments, what a correct front end does)  -- every one must end in a RuntimeError (code 1 at exit)
-    ["-Ofoo"], ["-O"], ["-O9"], ["-O4"], ["-O-1"],
+    # arguments (with their value) that a correct front end answers with a RuntimeError (exit status 1)
+    ["-Ofoo"], ["-O"], ["-O9"], ["-O4"], ["-O-1"], ["-O1.5"], ["-O2x"], ["-O1_0"], ["-O0x1"],
     ["--flag", "eof-support=yes=no"], ["--flag", "a=b=c"], ["--flag", "=yes"], ["--flag", "nosuchflag=yes"], ["--flag", "nosuchflag"],
+    ["--flag", "eof-support=maybe"], ["--flag", "eof-support=true"], ["--flag", "eof-support=YES"], ["--flag", "eof-support=1"],
+    ["--flag", "eof-support="], ["--flag", "eof-support=yes "], ["--flag", "nosuchflag=maybe"],
     ["-fnosuchflag"], ["-fno-nosuchflag"], ["-f"], ["-fno-"], ["-fno-no-eof-support"], ["-feof support"], ["-fmax-shortcircuit-fallthrough"],
-    ["-dfoo"], ["-d"], ["-dast,,dfa"], ["--dump", "foo"],
+    ["-feof-support=yes"],
+    ["-dfoo"], ["-d"], ["-dast,,dfa"], ["--dump", "foo"], ["--dump", "ast,nope"], ["-dAST"],
     ["-x"], ["-X3"], ["-"], ["--nosuchoption", "3"], ["--eof-support", "1"], ["--O3", "1"], ["-o", "--", "1"],
     ["--collapsed-range-length", "abc"], ["--collapsed-range-length", ""], ["--max-shortcircuit-fallthrough", "1e3"],
     ["--debug-dfa-hide-threshold", "0x10"], ["-ofoo.c"], ["--output", "a.b"], ["second.nmfu"],
 ]
 MALFORMED_TRAILING = [["--flag"], ["--collapsed-range-length"], ["--output"], ["--dump"], ["--dump-prefix"], ["--nosuchoption"]]
-# arguments whose VALUE is not what the help documents but which the front end accepts; reported separately
-LENIENT_POOL = [["--flag", "eof-support=maybe"], ["--flag", "eof-support=true"], ["--flag", "eof-support=YES"], ["--flag", "eof-support=1"],
-                ["--flag", "eof-support="], ["-tjunk"], ["--t", "zz"], ["--o", "out"], ["--d", "ast"], ["--f", "eof-support"], ["--O", "2"],
-                ["-O+2"], ["-O 2"], ["-O02"], ["--collapsed-range-length", "-5"], ["--collapsed-range-length", " 7 "],
+# accepted spellings and leniencies of the front end that the property does not call malformed (aliases of the
+# short options written with two dashes, int() spellings of a valid level, ignored text after -t, an empty
+# argument, a negative option value): recorded in the evidence, never reported
+LENIENT_POOL = [["-tjunk"], ["--t", "zz"], ["--o", "out"], ["--d", "ast"], ["--f", "eof-support"], ["--O", "2"],
+                ["-O+2"], ["-O 2"], ["-O02"], ["-O0_1"], ["--collapsed-range-length", "-5"], ["--collapsed-range-length", " 7 "],
                 ["-fEOF_SUPPORT"], ["-feof_support"], ["--flag", "EOF-SUPPORT=on"], [""]]
 VALID_EXTRAS = [["-t"], ["--dry-run"], ["-dast"], ["-ddfa,ast"], ["--dump", "parse"], ["--dump-prefix", "pfx"], ["-oname"], ["--output", "name"],
                 ["--collapsed-range-length", "7"], ["--max-shortcircuit-fallthrough", "0"], ["--max-shortcircuit-action-penalty", "12"],
